@@ -48,7 +48,7 @@ if ! build "$TAGS"; then
     echo "INCONCLUSIVE property=$ID harness does not build against /repo:"; tail -20 "$TMP/build.log"; exit 3
   fi
 fi
-export VMON_HOOKS=$HOOKS
+export VMON_HOOKS=$HOOKS VMON_HARNESS_DIR="$VERIF_DIR/harness" VMON_MODFLAG="$MODFLAG"
 
 if [ "$ID" = "replay" ]; then
   "$TMP/vmon" replay "$TIER"; exit $?
